@@ -79,6 +79,23 @@ def strings_cases():
         yield [[b'set', b'n', stored], [b'decr', b'n'], [b'get', b'n']]
 
 
+def set_option_cases():
+    opts = [[b'nx'], [b'xx'], [b'get'], [b'keepttl'], [b'ex', b'10'], [b'px', b'10000'], [b'EX', b'0'], [b'px', b'x']]
+    states = [[], [[b'set', b'k', b'old']], [[b'set', b'k', b'old', b'ex', b'500']], [[b'rpush', b'k', b'a']], [[b'sadd', b'k', b'a']]]
+    combos = [[]] + [[o] for o in opts] + [[a, b] for a in opts for b in opts if a is not b] + \
+             [[a, b, c] for a in opts[:6] for b in opts[:6] for c in opts[:6] if a is not b and b is not c and a is not c]
+    for st in states:
+        for co in combos:
+            yield st + [[b'set', b'k', b'new'] + sum(co, []), [b'get', b'k'], [b'ttl', b'k'], [b'type', b'k']]
+    for existing in ([], [b'a'], [b'b'], [b'c'], [b'a', b'c']):
+        mk = [[b'set', k, b'old'] for k in existing]
+        yield mk + [[b'msetnx', b'a', b'1', b'b', b'2', b'c', b'3'], [b'mget', b'a', b'b', b'c']]
+        yield mk + [[b'msetnx', b'a', b'1', b'a', b'2'], [b'mget', b'a']]
+        yield mk + [[b'mset', b'a', b'1', b'b', b'2', b'a', b'3'], [b'mget', b'a', b'b']]
+        yield mk + [[b'del', b'a', b'a', b'b'], [b'exists', b'a', b'a', b'b', b'c', b'c']]
+        yield mk + [[b'rename', b'a', b'a'], [b'rename', b'a', b'b'], [b'renamenx', b'b', b'c'], [b'mget', b'a', b'b', b'c']]
+
+
 FLOATS = [b'inf', b'-inf', b'1e308', b'-1e308', b'1.7976931348623157e308', b'0', b'-0', b'1', b'-1.5', b'0.1', b'5e-324', b'nan', b'1e-400', b'abc']
 
 
@@ -89,6 +106,12 @@ def floats_cases():
             yield [[b'hset', b'h', b'f', stored], [b'hincrbyfloat', b'h', b'f', inc], [b'hget', b'h', b'f']]
             yield [[b'zadd', b'z', stored, b'm'], [b'zincrby', b'z', inc, b'm'], [b'zscore', b'z', b'm'], [b'zrange', b'z', b'0', b'-1', b'withscores']]
             yield [[b'zadd', b'z', stored, b'm'], [b'zadd', b'z', b'incr', inc, b'm'], [b'zscore', b'z', b'm']]
+            yield [[b'zadd', b'z', stored, b'm'], [b'zincrby', b'z', inc, b'fresh'], [b'zscore', b'z', b'fresh'], [b'zrange', b'z', b'0', b'-1', b'withscores']]
+    for bad in (b'nan', b'abc', b'1e400', b'', b' 1'):
+        for n in (1, 2):
+            pre = [[b'zadd', b'z', b'1', b'a', b'2', b'b'], [b'expire', b'z', b'100']]
+            yield pre + [[b'zadd', b'z'] + [b'5', b'a'] * n + [bad, b'q'], [b'zrange', b'z', b'0', b'-1', b'withscores'], [b'ttl', b'z']]
+            yield pre + [[b'zadd', b'z', b'ch'] + [b'5', b'new%d' % n] + [bad, b'q', b'7', b'r'], [b'zrange', b'z', b'0', b'-1', b'withscores']]
 
 
 def zsets_cases():
@@ -105,7 +128,8 @@ def zsets_cases():
             for hi in bounds:
                 yield mk + [[b'zrangebyscore', b'z', lo, hi], [b'zcount', b'z', lo, hi], [b'zrevrangebyscore', b'z', hi, lo, b'withscores']]
                 yield mk + [[b'zrangebyscore', b'z', lo, hi, b'limit', b'1', b'2'], [b'zrangebyscore', b'z', lo, hi, b'limit', b'-1', b'2'],
-                            [b'zrangebyscore', b'z', lo, hi, b'limit', b'0', b'-1']]
+                            [b'zrangebyscore', b'z', lo, hi, b'limit', b'0', b'-1'], [b'zrangebyscore', b'z', lo, hi, b'limit', b'0', b'0'],
+                            [b'zrevrangebyscore', b'z', hi, lo, b'limit', b'1', b'0'], [b'zrangebyscore', b'z', lo, hi, b'withscores', b'limit', b'2', b'1']]
                 yield mk + [[b'zremrangebyscore', b'z', lo, hi], [b'zrange', b'z', b'0', b'-1']]
     # aggregation: weights x aggregates x infinite scores
     ws = [b'0', b'1', b'-1', b'inf', b'-inf', b'2.5']
@@ -122,7 +146,8 @@ def zsets_cases():
     mk = [[b'zadd', b'z', b'0', b'a', b'0', b'b', b'0', b'c', b'0', b'd']]
     for lo in lex:
         for hi in lex:
-            yield mk + [[b'zrangebylex', b'z', lo, hi], [b'zlexcount', b'z', lo, hi], [b'zrevrangebylex', b'z', hi, lo], [b'zrangebylex', b'z', lo, hi, b'limit', b'1', b'1']]
+            yield mk + [[b'zrangebylex', b'z', lo, hi], [b'zlexcount', b'z', lo, hi], [b'zrevrangebylex', b'z', hi, lo], [b'zrangebylex', b'z', lo, hi, b'limit', b'1', b'1'],
+                        [b'zrangebylex', b'z', lo, hi, b'limit', b'0', b'0'], [b'zrevrangebylex', b'z', hi, lo, b'limit', b'1', b'-1']]
             yield mk + [[b'zremrangebylex', b'z', lo, hi], [b'zrange', b'z', b'0', b'-1']]
 
 
@@ -154,6 +179,9 @@ def ttl_cases():
             # the same with the clock moved past the deadline before and after the action
             yield pre + [('adv', 100001)] + a + after
             yield pre + a + [('adv', 100001)] + after + [[b'dbsize'], [b'keys', b'*']]
+            if not any(f[0] in (b'multi', b'exec') for f in a if isinstance(f, list)):
+                # one clock reading for the whole block
+                yield pre + [[b'multi']] + a + after + [[b'setnx', b'k', b'again'], [b'dbsize'], [b'exec']] + after
 
 
 def missing_cases(rng, n):
@@ -185,6 +213,13 @@ def scan_filter_cases():
                     f = [b'scan', b'0', b'match', pat, b'count', cnt, b'type', t] if cnt != b'3' else [b'scan', b'0', b'type', t, b'match', pat, b'count', cnt]
                 yield mk + [f]
     bad = [[b'count', b'0'], [b'count', b'-1'], [b'count', b'x'], [b'foo', b'1'], [b'match'], [b'count', b'1', b'extra'], [b'type', b'string'], [b'match', b'*', b'count', b'0']]
+    for cur in (b' 1', b'1 ', b'01', b'1_0', b'+1', b'1\n', b'\t0', b'0x1', b''):
+        yield mk + [[b'scan', cur], [b'sscan', b'ks', cur], [b'hscan', b'kh', cur, b'count', b'1'], [b'zscan', b'missing', cur]]
+    for other in ([], [[b'select', b'1'], [b'set', b'zz1', b'1'], [b'rpush', b'zz2', b'x'], [b'select', b'0']]):
+        yield mk + other + [[b'scan', b'0', b'count', b'100'], [b'swapdb', b'0', b'1'], [b'scan', b'0', b'count', b'100'], [b'scan', b'0', b'type', b'string'],
+                            [b'dbsize'], [b'keys', b'*'], [b'select', b'1'], [b'scan', b'0', b'count', b'100'], [b'scan', b'0', b'match', b'k*', b'type', b'list']]
+        yield mk + other + [[b'scan', b'0'], [b'flushdb'], [b'scan', b'0'], [b'set', b'n1', b'1'], [b'scan', b'0'], [b'del', b'n1'], [b'scan', b'0'], [b'expire', b'ka', b'1'],
+                            ('adv', 2000), [b'scan', b'0', b'count', b'100'], [b'rename', b'kb', b'kbb'], [b'scan', b'0', b'count', b'100'], [b'move', b'kl', b'2'], [b'scan', b'0', b'count', b'100']]
     for cur in (b'0', b'5', b'99', b'-1', b'x'):
         for opts in bad:
             yield mk + [[b'scan', cur] + opts]
@@ -212,14 +247,14 @@ def run_cases(res, prop, cases, tier, seed, t_end, sample, observers=(), scope=N
             res.cells.add((label, Cn.name_of(evs[-1][2]) if evs[-1][0] == 'cmd' else '', len(case)))
             if s.violations:
                 v = s.violations[0]
-                res.findings.append({'kind': 'monitor', 'property': v.prop, 'clause': v.clause, 'detail': v.detail, 'matrix': label, 'version': version,
+                res.add({'kind': 'monitor', 'property': v.prop, 'clause': v.clause, 'detail': v.detail, 'matrix': label, 'version': version,
                                      'seed': seed, 'events': [corr.ev_json(e) for e in evs]})
                 return
             if d is not None:
                 verdict = Cp.judge(d, scope)
                 if verdict == 'out-of-scope':
                     continue
-                res.findings.append({'kind': 'divergence', 'verdict': verdict, 'what': d.what, 'matrix': label, 'version': version, 'seed': seed,
+                res.add({'kind': 'divergence', 'verdict': verdict, 'what': d.what, 'matrix': label, 'version': version, 'seed': seed,
                                      'events': [corr.ev_json(e) for e in evs], 'impl': d.impl_side, 'model': d.model_side, 'at': corr.ev_json(d.event)})
                 return
     if tier == 'thorough':
